@@ -70,10 +70,32 @@ pub fn gen(tier: &str, seed: u64, idx: u64, base: u64) -> Spec {
 /// facts about a run that are known without executing it (used for the signature of a hang)
 pub fn static_sig(spec: &Spec, class: &str) -> String {
     let cfg = &spec.slots[0];
+    // unbounded work shows as the wall-clock guard or as the step budget, whichever comes first on this machine: one
+    // class for the signature
+    let class = if class == "step-budget-exhausted" { "did-not-terminate" } else { class };
     let mut sig = format!("{}:{}", cfg.kind(), class);
     if let Some(op) = spec.ops.first() {
         let gt = &spec.world.goals[op.goal];
+        if crate::ssim::hyp_mentions_unknown(gt) {
+            sig.push_str("+unknown-in-hyp");
+        }
         if let Ok((prog, goals)) = wgen::parse_world(&spec.world) {
+            if wgen::implied_bound_cycle(&prog) {
+                sig.push_str("+implied-bound-cycle");
+            }
+            // a where-clause that is larger than the header it belongs to and shares a parameter with it
+            let grows = prog.impls().any(|im| {
+                let mut hv = vec![];
+                im.self_ty.vars(&mut hv);
+                im.wcs.iter().any(|w| {
+                    let mut wv = vec![];
+                    w.ty.vars(&mut wv);
+                    w.ty.size() > im.self_ty.size() && wv.iter().any(|v| hv.contains(v))
+                })
+            });
+            if grows {
+                sig.push_str("+grow");
+            }
             if let Some(Ok(ast)) = goals.get(op.goal) {
                 let mut gp = vec![];
                 ast.preds(&mut gp);
